@@ -78,8 +78,41 @@ def _ob_roundtrip(arr, form):
         h.check("eff_in_unit_interval", And(e >= 0, e <= 1))
         h.assume(And(e > 0, e < 1))  # proved just above (strictness from exp > 0 / < 1)
         N2 = hx.HX_NTU(A, e, c)
-        h.check("ntu_of_eff_is_ntu", h.eq(N2, N, tol=0))
+        if arr == "ShellTube" and h.symbolic:
+            _shelltube_derivation(h, N, c, e, N2)
+        else:
+            h.check("ntu_of_eff_is_ntu", h.eq(N2, N, tol=0))
     return ob
+
+
+def _shelltube_derivation(h, N, c, e, N2):
+    """Explicit proof of HX_NTU(HX_Eff(N, c), c) == N for the shell-and-tube relations, each step from the listed facts alone.
+    Terms are built exactly as the code builds them:  a = 1 + c^2,  s = a^0.5,  r = s^0.5 (forward relation),  f = a^(1/4),
+    g = a^(-0.5) (inverse relation),  E = exp(2 (N s / 2))."""
+    from pvc.npshim import MATH
+    a = 1 + c ** 2
+    s = a ** 0.5
+    r = s ** 0.5
+    f = a ** (1 / 4)
+    g = a ** -0.5
+    Ns = N / 1                                   # the code divides the NTU by the number of passes (1 here) before use
+    x = 2 * (Ns * s / 2)
+    E = MATH.exp(x)
+    D1, D2 = 1 + c - f, 1 + c + f
+    ratio = (2 - e * D1) / (2 - e * D2)
+    h.derive("lemma_a_at_least_one", a >= 1, [c >= 0])
+    h.derive("lemma_roots", And(s >= 1, r >= 1), [a >= 1, s >= 0, h.eq(s * s, a), r >= 0, h.eq(r * r, s)], opaque=[a, s, r])
+    h.derive("lemma_fourth_root_is_root_of_root", h.eq(r, f), [And(s >= 1, r >= 1), h.eq(s * s, a), h.eq(r * r, s), f > 0, h.eq(f * f * f * f, a)], opaque=[a, s, r, f])
+    h.derive("lemma_inverse_root", h.eq(g * s, 1.0), [g > 0, h.eq(g * g * a, 1.0), h.eq(s * s, a), And(s >= 1, r >= 1)], opaque=[a, s, g, r])
+    h.derive("lemma_exp_above_one", E > 1, [Implies(x > 0, E > 1), N > 0, And(s >= 1, r >= 1)], opaque=[E, s, r])
+    den = (1 + c) + r * ((E + 1) / (E - 1))
+    h.derive("lemma_denominator_positive", den > 0, [E > 1, c >= 0, And(s >= 1, r >= 1)], opaque=[E, r, s])
+    h.derive("lemma_eff_closed_form", h.eq(e * den, 2.0), [den > 0], opaque=[den])
+    h.derive("lemma_ratio_is_exp", h.eq(ratio, E), [h.eq(e * den, 2.0), h.eq(r, f), E > 1, c >= 0, c <= 1, And(s >= 1, r >= 1), e > 0, e < 1],
+             opaque=[E, r, f, e, s])
+    L = MATH.log(ratio)
+    h.derive("lemma_log_of_ratio", h.eq(L, x), [h.eq(ratio, E), h.eq(MATH.log(E), x)], opaque=[])
+    h.derive("ntu_of_eff_is_ntu", h.eq(N2, N), [h.eq(L, x), h.eq(g * s, 1.0), And(s >= 1, r >= 1)], opaque=[L, g, s, r])
 
 
 def _ob_range(arr):
@@ -245,11 +278,11 @@ def obligations():
         obs.append(Obligation(f"C20.dispatch.eff.{arr}", _ob_forms_agree(arr), functions=[hx.HX_Eff], expect=("eff_same_for_member_and_text",),
                               doc="HX_Eff takes the same branch for the enumeration member and for its text"))
     for arr in CLOSED:
-        # the shell-and-tube relations nest square roots, a fourth root, coth and ln: their inverse proofs take ~10 s of non-linear
-        # reasoning and are not stable under machine load, so they run in the thorough tier with a generous budget
+        # the shell-and-tube relations nest square roots, a fourth root, coth and ln: left to the solver alone their inverse proof was not
+        # stable under machine load
         heavy = arr == "ShellTube"
-        tier = "thorough" if heavy else "quick"
-        tmo = 180000 if heavy else 20000
+        tier = "quick"          # the shell-and-tube inverse is an explicit derivation now (_shelltube_derivation): milliseconds per step
+        tmo = 30000 if heavy else 20000
         obs.append(Obligation(f"C20.dispatch.ntu.{arr}", _ob_forms_agree_ntu(arr), functions=[hx.HX_NTU], expect=("ntu_same_for_member_and_text",), tier=tier, timeout_ms=tmo,
                               doc="HX_NTU takes the same (own) branch for both label forms"))
         for form in ("member", "text"):
